@@ -9,6 +9,7 @@ import (
 	"regexp"
 	"runtime"
 	"strconv"
+	"syscall"
 	"strings"
 	"sync"
 	"testing"
@@ -218,6 +219,10 @@ func TestIsolatedChild(t *testing.T) {
 	}
 	defer out.Close()
 	f.N() // build the job list
+	// A child must not be able to exhaust the machine's memory (the sandbox has no limit
+	// of its own): cap its address space; an allocation beyond it kills the child, which
+	// the parent reports as a process crash of the job at hand.
+	syscall.Setrlimit(syscall.RLIMIT_AS, &syscall.Rlimit{Cur: 16 << 30, Max: 16 << 30})
 	for i := from; i < to; i++ {
 		os.WriteFile(os.Getenv("VERIF_ISO_PROGRESS"), []byte(strconv.Itoa(i)), 0o644)
 		res := &isoResult{I: i}
